@@ -130,6 +130,14 @@ def make_case(r, thorough, i):
             els = ff.Basis.pauli(1).view(np.ndarray)
             perm = [[1, 2, 3, 0], [1, 0, 2, 3], [3, 1, 0, 2]][int(r.integers(0, 3))]
             b2 = ff.Basis(els[perm].copy())
+        elif (i // 3) % 4 == 2:
+            bk2 = 'derived'             # derived by indexing from the USED basis object (its trace tensor is cached)
+            _ = p.basis.four_element_traces
+            perm = r.permutation(len(p.basis))
+            if (perm == np.arange(len(perm))).all():
+                perm = np.roll(perm, 1)
+            b2 = p.basis[perm]
+            extra['derived_perm'] = perm
         else:
             b2 = gen.make_basis(r, d, bk2)
         p1 = rebase(p, b2)
@@ -191,7 +199,10 @@ def rebuild(inp):
                          [[o, c, 'n%d' % i] for i, (o, c) in enumerate(zip(arr(inp['n_opers']), arr(inp['n_coeffs'])))],
                          arr(inp['dt']), basis=basis)
     kind = inp['kind']
-    if kind == 'basis':
+    if kind == 'basis' and inp.get('derived_perm') is not None:
+        _ = p.basis.four_element_traces
+        p1 = rebase(p, p.basis[np.array(inp['derived_perm'], dtype=int)])
+    elif kind == 'basis':
         p1 = rebase(p, ff.Basis(arr(inp['basis2']), btype=inp.get('btype2')))
     elif kind == 'offset':
         p1 = with_offset(p, arr(inp['offset']))
